@@ -103,9 +103,10 @@ Qed.
 (* ---- encrypt_ip / decrypt_ip.  Full statement intended (the property's second sentence):
         forall a s key mode, wf_addr a -> parse_ip s = Some a -> key of the size the mode requires ->
           exists c, encrypt_ip s key mode = IpOk c /\ decrypt_ip c key mode = IpOk (ip_text a)
-      It is false on the pinned tree in three ways (witnesses below, all replayed on the implementation):
-      IPv4-mapped IPv6 addresses, IPv6 addresses whose pfx encryption is IPv4-mapped, and pfx keys with two equal
-      halves.  Proved: everything outside those classes. ---- *)
+      It is false on the pinned tree in two ways (witnesses below, both replayed on the implementation):
+      IPv4-mapped IPv6 addresses and IPv6 addresses whose pfx encryption is IPv4-mapped.  (A third one, pfx keys with
+      two equal halves panicking, was repaired by fb618e6: they are refused with an error now.)
+      Proved: everything outside those classes. ---- *)
 Theorem C23_ip_roundtrip : forall Q : ipprims,
   (forall k b, ip_wf b -> ip_wf (detE Q k b)) ->
   (forall k b, ip_wf b -> detD Q k (detE Q k b) = b) ->
@@ -162,11 +163,13 @@ Theorem C23_ip_pfx_collision_refuted :
 Proof. exact ip_pfx_collision_refuted. Qed.
 Print Assumptions C23_ip_pfx_collision_refuted.
 
-Theorem C23_ip_pfx_equal_halves_refuted :
-  exists key, length key = 32%nat
-    /\ encrypt_ip id_ipprims (ascii_bytes "1.2.3.4") key mode_pfx = IpPanic.
-Proof. exact ip_pfx_equal_halves_refuted. Qed.
-Print Assumptions C23_ip_pfx_equal_halves_refuted.
+(* a pfx key whose two 16-byte halves are equal is refused with a key error (repaired by fb618e6; it used to panic),
+   so `key_ok` keeps its "halves differ" clause: such a key is not of a form the mode accepts *)
+Theorem C23_ip_pfx_equal_halves_rejected : forall (Q : ipprims) (enc : bool) (ip key : bytes),
+  parse_ip ip <> None -> length key = 32%nat -> firstn 16 key = skipn 16 key ->
+  ip_crypt enc Q ip key mode_pfx = IpErrKey.
+Proof. exact ip_pfx_equal_halves_rejected. Qed.
+Print Assumptions C23_ip_pfx_equal_halves_rejected.
 
 (* the IP hypotheses hold for the permutations used in the witnesses, and the theorem applies to ordinary
    addresses under them *)
